@@ -573,6 +573,8 @@ def c01_prop():
     # contract-respecting histories never panic / never double-lock (E-HIST, all default checks)
     quick += [
         H(MUTEX, "hist_c01_n4", "hold", replay=("mutex_hist_noop", 2), mask=P(1), est_s=120, bounds="E-HIST mutex N=4, all Kani default checks (panics, pointer checks)", **full),
+        H(SEM, "hist_c01_x_p2_n5", "hold", replay=("sem_hist_noop", sem_cfg(2, 2)), mask=P(1), est_s=300, est_gb=3.5, timeout=1500,
+          bounds="E-HIST semaphore N=5 (2 fixed polls + 3): a completed future is never a member of the wait queue (checked on the queue itself)"),
         H(SEM, "hist_c01_x_p0_n3", "hold", replay=("sem_hist_noop", sem_cfg(2, 0)), mask=P(1), est_s=200, est_gb=3, bounds="E-HIST semaphore N=3, all default checks", **full),
         H(EVENT, "hist_c01_n5_check", "hold", replay=("event_hist_check", 2), mask=P(1), est_s=200, bounds="E-HIST event N=5, CheckLock, all default checks", **full),
         H(ONESHOT, "hist_c01_n5", "hold", replay=("oneshot_hist_noop", 0), mask=P(1), est_s=200, bounds="E-HIST oneshot N=5, all default checks", **full),
